@@ -199,7 +199,7 @@ def step (st : St) (toks : List String) : St × String :=
     | some i, some (es, []) => match st.get i with
       | some db => match update db es with
         | .ok (db', rs, notified) =>
-          (st.set i db', s!"ok {notified} {rs.length}" ++ String.join (rs.map (fun r => " " ++ resultStr r)))
+          (st.set i db', s!"ok {notified}@{readIndex db' Key.sysLocalIndex} {rs.length}" ++ String.join (rs.map (fun r => " " ++ resultStr r)))
         | .error e => (st, errStr e)
       | none => bad
     | _, _ => bad
@@ -232,7 +232,7 @@ def step (st : St) (toks : List String) : St × String :=
       -- FSM.Open: returns the local index, tells the listener the leader index if there is one
       let idx := readIndex db Key.sysLocalIndex
       let li := readIndex db Key.sysLeaderIndex
-      (st, s!"ok {idx} {if li ≠ 0 then li else idx}")
+      (st, s!"ok {idx} {if li ≠ 0 then li else idx}@{idx}")
     | none => bad
   | ["xfer", a, b] => match a.toNat?, b.toNat? with
     | some a, some b => match st.get a with
